@@ -18,7 +18,6 @@ from .protocol.messages import (
     CheckPrivileges,
     DisablePublicChat,
     EnablePublicChat,
-    FileSearch,
     GetGlobalRecommendations,
     GetItemRecommendations,
     GetItemSimilarUsers,
@@ -51,19 +50,16 @@ from .protocol.messages import (
     RemoveInterest,
     RoomChatMessage,
     RoomList,
-    RoomSearch,
     RoomTickerAdded,
     SetRoomTicker,
     SetStatus,
     TogglePrivateRoomInvites,
-    UserSearch,
 )
 from .protocol.primitives import DirectoryData, Recommendation, MessageDataclass
 from .network.network import ExpectedResponse
 from .network.connection import PeerConnection, ServerConnection
 from .room.model import Room, RoomMessage
 from .user.model import User, UserStatus, TrackingFlag, UploadPermissions
-from .search.model import SearchRequest, SearchType
 
 
 if TYPE_CHECKING:
@@ -552,18 +548,8 @@ class GlobalSearchCommand(BaseCommand[None, None]):
         self._ticket: Optional[int] = None
 
     async def send(self, client: SoulSeekClient):
-        self._ticket = next(client.ticket_generator)
-        await client.network.send_server_messages(
-            FileSearch.Request(
-                self._ticket,
-                query=self.query
-            )
-        )
-        client.searches.requests[self._ticket] = SearchRequest(
-            ticket=self._ticket,
-            query=self.query,
-            search_type=SearchType.NETWORK
-        )
+        request = await client.searches.search(self.query)
+        self._ticket = request.ticket
 
 
 class UserSearchCommand(BaseCommand[None, None]):
@@ -574,20 +560,8 @@ class UserSearchCommand(BaseCommand[None, None]):
         self._ticket: Optional[int] = None
 
     async def send(self, client: SoulSeekClient):
-        self._ticket = next(client.ticket_generator)
-        await client.network.send_server_messages(
-            UserSearch.Request(
-                self.username,
-                self._ticket,
-                self.query
-            )
-        )
-        client.searches.requests[self._ticket] = SearchRequest(
-            ticket=self._ticket,
-            query=self.query,
-            username=self.username,
-            search_type=SearchType.USER
-        )
+        request = await client.searches.search_user(self.username, self.query)
+        self._ticket = request.ticket
 
 
 class RoomSearchCommand(BaseCommand[None, None]):
@@ -598,20 +572,8 @@ class RoomSearchCommand(BaseCommand[None, None]):
         self._ticket: Optional[int] = None
 
     async def send(self, client: SoulSeekClient):
-        self._ticket = next(client.ticket_generator)
-        await client.network.send_server_messages(
-            RoomSearch.Request(
-                self.room,
-                self._ticket,
-                self.query
-            )
-        )
-        client.searches.requests[self._ticket] = SearchRequest(
-            ticket=self._ticket,
-            query=self.query,
-            room=self.room,
-            search_type=SearchType.ROOM
-        )
+        request = await client.searches.search_room(self.room, self.query)
+        self._ticket = request.ticket
 
 
 class PrivateMessageCommand(BaseCommand[None, None]):
